@@ -13,6 +13,7 @@ class State:
     def __init__(self, regs, flags, memover=None):
         self.regs = dict(regs); self.flags = dict(flags); self.memover = dict(memover or {})
         self.wregs = {}; self.wflags = {}; self.wmem = {}; self.undef = set(); self.eip = None
+        self.wmask = {}; self.rmem = set()      # bits of each register written through wr(); memory bytes read (C08)
     def mem(self, a):
         a &= 0xffffffff
         return self.memover.get(a, default_mem(a))
@@ -26,6 +27,7 @@ class State:
         if k == 'imm': return op[1] & mask(op[2])
         if k == 'mem':
             a = self.ea(op); n = op[2]
+            for i in range(n // 8): self.rmem.add((a + i) & 0xffffffff)
             return sum(self.mem(a + i) << (8 * i) for i in range(n // 8))
         raise ValueError(op)
     def ea(self, op):
@@ -38,6 +40,8 @@ class State:
         k = op[0]
         if k == 'reg':
             idx, n = op[1], op[2]; v &= mask(n)
+            rr = REG32[idx] if n != 8 else REG32[idx & 3]
+            self.wmask[rr] = self.wmask.get(rr, 0) | (mask(n) << (8 if n == 8 and idx >= 4 else 0))
             if n == 32: self.wregs[REG32[idx]] = v
             elif n == 16: r = REG32[idx]; self.wregs[r] = (self.wregs.get(r, self.regs[r]) & 0xffff0000) | v
             else:
